@@ -77,6 +77,10 @@ def cases(tier):
     # the inherited tolerance is symbolic); all boundaries far apart: margin mode, any difference is a violation
     for d in DECIMAL_DIES:
         cs.append(dict(kind='diedec', mode='margin', die=d))
+    # histories made of real API calls on an unrelated design of the same scale (margin mode: any difference is a violation)
+    for hist in ('netlist-with-terminal', 'netlist-soft', 'die', 'allocation'):
+        for layout in ('east', 'north'):
+            cs.append(dict(kind='apihist', hist=hist, layout=layout))
     for hist in (1, 2):
         for op in ('>=', '<='):
             for decomp in (False, True):
@@ -158,6 +162,46 @@ def body_netlist(I, case):
     r1, r2, r3 = run_three(I, probe, 1.0)
     I.reached('netlist')
     compare(I, 'netlist-load', r1, r2, r3, same_result)
+
+
+def body_apihist(I, case):
+    g = I.real('gap', -0.5, 0.5)
+    I.assume(Or(Eq(g, 0), g >= 0.001, g <= -0.001))
+    s_ = I.real('hist_area', 0.5, 4)
+    if case['layout'] == 'east':
+        rects = [[2.0, 2.0, 2.0, 2.0], [3.0 + g + 0.5, 2.0, 1.0, 1.0]]
+    else:
+        rects = [[2.0, 2.0, 2.0, 2.0], [2.0, 3.0 + g + 0.5, 1.0, 1.0]]
+
+    def probe():
+        try:
+            n = Netlist({'Modules': {'H': {'hard': True, 'rectangles': [list(r) for r in rects]}}})
+        except AssertionError:
+            return ('rejected',)
+        m = n.modules[0]
+        return ('accepted', m.has_stog, tuple(r.location.name for r in m.rectangles))
+
+    def history():
+        h = case['hist']
+        if h == 'netlist-with-terminal':
+            Netlist({'Modules': {'A': {'area': s_, 'center': [1.0, 1.0]}, 'B': {'area': 2.0, 'center': [3.0, 1.0]},
+                                 'P': {'terminal': True, 'fixed': True, 'center': [0.0, 2.0]}}, 'Nets': [['A', 'B', 'P']]})
+        elif h == 'netlist-soft':
+            Netlist({'Modules': {'A': {'area': s_, 'rectangles': [[1.0, 1.0, 2.0, 1.0]]}, 'B': {'area': 2.0, 'center': [3.0, 1.0]}}, 'Nets': [['A', 'B']]})
+        elif h == 'die':
+            Die({'width': 4.0 * s_, 'height': 3.0, 'regions': [[1.0, 1.0, 1.0, 1.0, '#']]})
+        else:
+            Allocation([[[1.0, 1.0, 2.0, 2.0], {'A': 0.5}], [[3.0, 1.0, 2.0, 2.0], {'A': 0.25, 'B': 0.5}]]).refine(0.6)
+    fresh_state()
+    try:
+        history()
+        r1 = probe()
+    except Exception as e:
+        r1 = ('raised', type(e).__name__)
+    fresh_state()
+    r2 = probe()
+    I.reached('netlist')
+    I.prove('netlist-load:independent-of-an-earlier-design(api history, margin)', same_result(r1, r2), side=True)
 
 
 def same_result(a, b):
